@@ -30,6 +30,7 @@ type Obligation struct {
 	Script    *Script
 	Slow      bool // discharged only in the thorough tier
 	Props     []string // if non-empty: the clause counts only for these properties
+	Parts     []string // ensures: one conjunct per return point
 }
 
 type localPath struct {
@@ -1522,6 +1523,9 @@ func (g *Gen) finishEnsures() {
 		o := g.addObl(kind, label, &State{pc: "true"}, goal, token.NoPos)
 		o.Text = c.Text
 		o.Canary = kind == "canary"
+		if kind == "ensures" && len(parts) > 1 {
+			o.Parts = parts // one conjunct per return point: the solver may discharge them one by one
+		}
 	}
 	for i, c := range g.ct.Ensures {
 		doClause(c, "ensures", i)
